@@ -74,7 +74,7 @@ impl PreProcessContext {
 
         path = self.replace_placeholders(&path, workspace_str);
 
-        if path.starts_with('~') {
+        if path == "~" || path.starts_with("~/") || path.starts_with("~\\") {
             let home_dir = match dirs::home_dir() {
                 Some(path) => path,
                 None => {
@@ -82,7 +82,9 @@ impl PreProcessContext {
                     return path;
                 }
             };
-            path = home_dir.join(&path[2..]).to_string_lossy().to_string();
+            // skip the `~` and the separator(s) after it; a bare `~` is the home directory itself
+            let rest = path[1..].trim_start_matches(['/', '\\']);
+            path = home_dir.join(rest).to_string_lossy().to_string();
         } else if path.starts_with("./") {
             path = self
                 .workspace
